@@ -622,6 +622,42 @@ Lemma mapping_function : forall w1 w2 C labels, w1 = w2 ->
 Proof. intros; subst; auto. Qed.
 
 (* ------------------------------------------------------------------ *)
+(* constructions on shared objects: constructors are pure               *)
+(* ------------------------------------------------------------------ *)
+Lemma apply_no_writes : forall h stored, apply_writes h [] stored = stored.
+Proof. destruct h; reflexivity. Qed.
+
+Lemma history_pure_lem : forall h C hist stored, history h C hist stored = stored.
+Proof.
+  intros h C hist. unfold history, history_gen.
+  induction hist as [|w r IH]; intros stored; simpl; [reflexivity|].
+  unfold construct_gen at 2. unfold no_writes at 2. rewrite apply_no_writes. apply IH.
+Qed.
+
+Lemma copies_protect_lem : forall wr C hist stored, history_gen wr HCopy C hist stored = stored.
+Proof.
+  intros wr C hist. unfold history_gen.
+  induction hist as [|w r IH]; intros stored; simpl; [reflexivity|]. apply IH.
+Qed.
+
+Lemma history_independent_lem : forall h C hist w stored,
+  items_after h C hist w stored = w_items w C stored /\ getall_after h C hist w stored = w_getall w C stored.
+Proof.
+  intros. unfold items_after, items_after_gen, getall_after, getall_after_gen.
+  fold (history h C hist stored). rewrite history_pure_lem. split; reflexivity.
+Qed.
+
+(* two histories, one wrapper: the same answers *)
+Lemma history_irrelevant_lem : forall h1 h2 C hist1 hist2 w stored,
+  items_after h1 C hist1 w stored = items_after h2 C hist2 w stored /\ getall_after h1 C hist1 w stored = getall_after h2 C hist2 w stored.
+Proof.
+  intros. destruct (history_independent_lem h1 C hist1 w stored) as [a b].
+  destruct (history_independent_lem h2 C hist2 w stored) as [c d].
+  rewrite a, b, c, d. split; reflexivity.
+Qed.
+
+
+(* ------------------------------------------------------------------ *)
 (* (3) encodings over Q                                                *)
 (* ------------------------------------------------------------------ *)
 From Coq Require Import Lqa.
@@ -769,3 +805,4 @@ Proof.
   - unfold ls_getitem. destruct (Qeq_bool sm 0) eqn:E; [apply Qeq_bool_iff in E; contradiction|]. reflexivity.
   - reflexivity.
 Qed.
+
